@@ -110,7 +110,7 @@ func c07Sub(algs func(tier string) []string, d func(tier string) int) *engine.Su
 	paths := decodePaths()
 	return &engine.Sub{
 		Name: "seal-unseal-roundtrip",
-		Rule: "deviation-bounded product of constructor options (base token + every combination of at most d deviating option values) for delegations and invocations x key algorithm; each constructed token is sealed (DAG-CBOR) and encoded (DAG-JSON) and decoded through 8 paths {cbor,json} x {generic,typed} x {bytes,reader}; all fields must agree with the original (times at whole seconds); non-trivial = tokens accepted by the constructor",
+		Rule: "deviation-bounded product of constructor options (base token + every combination of at most d deviating option values) for delegations and invocations x key algorithm; each constructed token is sealed (DAG-CBOR) and encoded (DAG-JSON) and decoded through 8 paths {cbor,json} x {generic,typed} x {bytes,reader}; all fields must agree with the original (times at whole seconds), and the typed accessors (Meta().GetBool/GetString/GetInt64/GetFloat64/GetBytes/GetNode, Arguments().GetNode) must agree with the iterated content of the same token; non-trivial = tokens accepted by the constructor",
 		Bound: func(t string) string {
 			return fmt.Sprintf("d<=%d deviating options, algorithms %v, 8 decode paths", d(t), algs(t))
 		},
@@ -149,6 +149,9 @@ func c07Sub(algs func(tier string) []string, d func(tier string) int) *engine.Su
 			}
 			ctx.Nontrivial(1)
 			orig := ViewOf(tok)
+			for _, b := range AccessorProblems(tok) {
+				ctx.Failf(cs, "accessor-disagrees-with-content/constructed", "%s: %s", cs.Spec, b)
+			}
 			s := tok.(sealer)
 			sealed, _, err := s.ToSealed(key.Priv)
 			ctx.Eval(1)
@@ -186,6 +189,9 @@ func c07Sub(algs func(tier string) []string, d func(tier string) int) *engine.Su
 					continue
 				}
 				v := ViewOf(got)
+				for _, b := range AccessorProblems(got) {
+					ctx.Failf(cs, "accessor-disagrees-with-content/decoded", "%s decoded through %s: %s", cs.Spec, p.Name, b)
+				}
 				if diff := DiffViews(orig, v); len(diff) > 0 {
 					ctx.Outcome("field-mismatch")
 					cls := c07Class(cs.Spec, "field-differs:"+strings.Join(diff, "+"), p.Codec)
@@ -232,7 +238,9 @@ func c07SharedSub() *engine.Sub {
 	return &engine.Sub{
 		Name: "shared-constructor-inputs",
 		Rule: "two or three invocations constructed from ONE caller-owned *args.Args (0..8 keys, built by appending, so its key slice has spare capacity at some sizes) through WithArguments, each followed by 0..2 WithArgument options of its own; all are constructed first, then sealed in every order and unsealed: every token - as constructed, and as decoded - has exactly the fields of the same token built from a private copy of the inputs, and the shared Args value itself is unchanged; non-trivial = all",
-		Bound: func(string) string { return "base of 0..8 keys x 2..3 tokens x 0..2 extra arguments each x every sealing order" },
+		Bound: func(string) string {
+			return "base of 0..8 keys x 2..3 tokens x 0..2 extra arguments each x every sealing order"
+		},
 		Gen: func(tier string, emit func(any) bool) {
 			perms := map[int][][]int{2: {{0, 1}, {1, 0}}, 3: {{0, 1, 2}, {0, 2, 1}, {1, 0, 2}, {1, 2, 0}, {2, 0, 1}, {2, 1, 0}}}
 			for bk := 0; bk <= 8; bk++ {
